@@ -20,6 +20,7 @@ func c18(c *Ctx) {
 	r.Decides("the balance call is unreachable when no node is overloaded, no overloaded node is a confirmed anomaly, no node is underused, too few nodes are underused, or all nodes are underused")
 	r.Decides("the source nodes handed to the eviction are the anomaly-filtered overloaded classes; the continue-condition returns true only for a node that is still over its high threshold and while every thresholded resource still has positive headroom")
 	r.Decides("anomaly gating: the overloaded nodes are filtered by the per-node detector unless no (or a single-round) condition is configured; the detector enters the anomaly state only when the configured condition holds on a counter that counts consecutive abnormal marks")
+	r.Decides("the continue-condition looks up the remaining headroom of every thresholded resource in every evaluation; every detector state change starts a generation with cleared counters")
 	r.Declines("thresholds and running estimates numerically; classification arithmetic; detector timeouts/generations over wall-clock time")
 
 	if fn := c.Fn(deschedLoadPkg, "", "evictPods"); fn != nil {
